@@ -125,8 +125,47 @@ pub fn value_leaf<'a, I: Kind<'a> + ValueInput<'a>, E: ErrTy<'a, I>>(g: &G) -> R
             })
             .bxd()
         }
+        G::Ext(k, ok) => chumsky::extension::v1::Ext(KExt { k: *k, ok: *ok }).bxd(),
         other => return Err(format!("not a value leaf: {other:?}")),
     })
+}
+/// an extension parser (feature `extension`) with separate value-building and checking bodies
+#[derive(Clone)]
+pub struct KExt {
+    k: usize,
+    ok: bool,
+}
+impl<'a, I: Kind<'a> + ValueInput<'a>, E: ErrTy<'a, I>> chumsky::extension::v1::ExtParser<'a, I, Val, X<E>> for KExt {
+    fn parse(&self, inp: &mut InputRef<'a, '_, I, X<E>>) -> Result<Val, E> {
+        let before = inp.cursor();
+        let mut seen = vec![];
+        for _ in 0..self.k {
+            match inp.next() {
+                Some(t) => seen.push(t.ch()),
+                None => return Err(E::user(inp.span_since(&before), "cu")),
+            }
+        }
+        if self.ok {
+            Ok(Val::C(seen.len() as i64))
+        } else {
+            Err(E::user(inp.span_since(&before), "cu"))
+        }
+    }
+    fn check(&self, inp: &mut InputRef<'a, '_, I, X<E>>) -> Result<(), E> {
+        let before = inp.cursor();
+        let mut n = 0;
+        while n < self.k {
+            if inp.next().is_none() {
+                return Err(E::user(inp.span_since(&before), "cu"));
+            }
+            n += 1;
+        }
+        if self.ok {
+            Ok(())
+        } else {
+            Err(E::user(inp.span_since(&before), "cu"))
+        }
+    }
 }
 pub fn value_set<'a, I: Kind<'a> + ValueInput<'a>, E: ErrTy<'a, I>>(ts: &[char], negate: bool) -> P<'a, I, E> {
     if negate {
@@ -610,7 +649,7 @@ where
                 .map(|s: Vec<I::Token>| Val::S(s.iter().map(|t| t.ch()).collect()))
                 .bxd()
         }
-        G::Any | G::Sel(_) | G::Cust(..) => I::vleaf::<E>(g)?,
+        G::Any | G::Sel(_) | G::Cust(..) | G::Ext(..) => I::vleaf::<E>(g)?,
         G::OneOf(ts) => I::one_of_set::<E>(ts, false)?,
         G::NoneOf(ts) => I::one_of_set::<E>(ts, true)?,
         G::AnyR => I::any_ref::<E>()?,
